@@ -394,7 +394,7 @@ FN('can_proceed', props=['C09', 'C07', 'C08'], ret='r',
             BodyReader::Chunked(d) => d is Ended, BodyReader::CloseDelimited => true }''')])
 FN('proceed', props=['C09', 'C15'], ret='r',
    requires=[('C09.wf', 'self.inner.wf_received()')],
-   ensures=[('C09.proceed_iff_can_proceed', '''({
+   ensures=[('C09/C15.proceed_iff_can_proceed_and_redirect_iff_3xx', '''({
             let ready = match self.inner.bstate().reader->Some_0 { BodyReader::NoBody => true, BodyReader::LengthDelimited(v) => v == 0, BodyReader::Chunked(d) => d is Ended, BodyReader::CloseDelimited => true };
             match r {
                 None => !ready,
